@@ -551,9 +551,9 @@ class Kernel(object):
     def pty(self, **kw):
         return Pty(self, **kw)
 
-    def socketpair(self, cap=65536):
+    def socketpair(self, cap=65536, cap_back=None):
         a2b = SockBuf(cap, self.keep_logs)
-        b2a = SockBuf(cap, self.keep_logs)
+        b2a = SockBuf(cap if cap_back is None else cap_back, self.keep_logs)
         a = SockEnd(self, b2a, a2b)
         b = SockEnd(self, a2b, b2a)
         a.peer = b
